@@ -46,7 +46,7 @@ theorem run_excludes_barred (P : Params) (cfg : List Key) (d : Disk) (live : Lis
     simp [hc] at hk
   have ht : fl.tombRead = false := by simpa using hT
   -- the in-memory tombstone set after migration contains m (or the store is corrupt)
-  have key : d.tomb = .corrupt ∨ ∃ tomb0, readTomb d fl = .ok tomb0 ∧ m ∈ migrate (readState d live fl now) tomb0 := by
+  have key : d.tomb.undecodable = true ∨ ∃ tomb0, readTomb d fl = .ok tomb0 ∧ m ∈ migrate (readState d live fl now) tomb0 := by
     rcases hb with hc | ⟨ms, hms, hm⟩ | ⟨tas, htas, ta, hta, hmat, hmark⟩
     · exact Or.inl hc
     · right
@@ -59,6 +59,7 @@ theorem run_excludes_barred (P : Params) (cfg : List Key) (d : Disk) (live : Lis
       · have hsr' : fl.stateRead = false := by simpa using hsr
         cases htomb : d.tomb with
         | corrupt => exact Or.inl rfl
+        | empty => exact Or.inl rfl
         | absent =>
           right
           refine ⟨[], by simp [readTomb, ht, htomb], ?_⟩
@@ -74,7 +75,7 @@ theorem run_excludes_barred (P : Params) (cfg : List Key) (d : Disk) (live : Lis
   intro k hk
   unfold autoTA at hk
   rcases key with hc | ⟨tomb0, hrt, hmig⟩
-  · have : readTomb d fl = .corrupt := by simp [readTomb, ht, hc]
+  · have : readTomb d fl = .corrupt := readTomb_undecodable d fl hc
     simp only [this] at hk
     cases hk
   · simp only [hrt] at hk
@@ -132,8 +133,8 @@ theorem run_keeps_barred (P : Params) (cfg : List Key) (d : Disk) (live : List K
     have hp := process_keep (m := m) (now := now) P f' (a == .revOnly) pr.1 pr.2
     generalize process P f' (a == .revOnly) now pr.1 pr.2 = l at hp
     -- not corrupt, since the read succeeded
-    have hnc : d.tomb ≠ .corrupt := by
-      intro hc; simp [readTomb, ht, hc] at hrt
+    have hnc : ¬ d.tomb.undecodable = true := by
+      rw [(readTomb_ok d fl tomb0 hrt).1]; simp
     -- reduce to: tombstoned on disk, or marker on disk with the state file read
     have key : (∃ ms, d.tomb = .ok ms ∧ m ∈ ms) ∨
         (fl.stateRead = false ∧ ∃ tas, d.state = .ok tas ∧ ∃ ta ∈ tas, ta.key.mat = m ∧ isMarker ta.st = true) := by
@@ -182,7 +183,15 @@ theorem step_keeps_barred (P : Params) (cfg : List Key) (s : Sys) (e : Ev) (m : 
   | damage dm =>
     cases dm with
     | tomb => exact Or.inl rfl
+    | tombEmpty => exact Or.inl rfl
     | state =>
+      rcases hb with hc | ⟨ms, hms, hm⟩ | ⟨tas, htas, ta, hta, hmat, hmark⟩
+      · exact Or.inl hc
+      · exact Or.inr (Or.inl ⟨ms, hms, hm⟩)
+      · rcases hok tas htas ta hta hmark with hc | ⟨ms, hms, hm⟩
+        · exact Or.inl hc
+        · exact Or.inr (Or.inl ⟨ms, hms, hmat ▸ hm⟩)
+    | stateEmpty =>
       rcases hb with hc | ⟨ms, hms, hm⟩ | ⟨tas, htas, ta, hta, hmat, hmark⟩
       · exact Or.inl hc
       · exact Or.inr (Or.inl ⟨ms, hms, hm⟩)
@@ -318,10 +327,19 @@ theorem revocation_needs_material_and_selfsig (P : Params) (cfg : List Key) (d :
 clears the live trust set and aborts the refresh: nothing is written. -/
 theorem corrupt_store_fail_closed (P : Params) (cfg : List Key) (d : Disk) (live : List Key)
     (f : Option Fetch) (fl : Faults) (now : Nat)
-    (hc : d.tomb = .corrupt) (ht : fl.tombRead = false) :
+    (hc : d.tomb.undecodable = true) :
     (autoTA P cfg d live f fl now).live = [] ∧ (autoTA P cfg d live f fl now).writes = [] := by
   unfold autoTA
-  simp [readTomb, ht, hc]
+  simp [readTomb_undecodable d fl hc]
+
+/-- **empty_store_fail_closed.** The instance the C09 round-2 seed broke: a
+tombstone file that exists with ZERO length (a post-crash / full-disk
+truncation artefact; `gob` returns `io.EOF`) is NOT an empty store: trust is
+cleared and the file is not replaced. Only NotExist is an empty store. -/
+theorem empty_store_fail_closed (P : Params) (cfg : List Key) (d : Disk) (live : List Key)
+    (f : Option Fetch) (fl : Faults) (now : Nat) (hc : d.tomb = .empty) :
+    (autoTA P cfg d live f fl now).live = [] ∧ (autoTA P cfg d live f fl now).writes = [] :=
+  corrupt_store_fail_closed P cfg d live f fl now (by rw [hc]; rfl)
 
 /-- **unreadable_store_fail_closed.** A tombstone file that exists but cannot
 be opened or read (any `readTombstones` error other than NotExist) clears the
@@ -518,7 +536,10 @@ whose outcome can be published (not both writes failed), an anchor on record
 * stays in the live trust set when it is absent from the set — for as long as
   it has not been Missing for more than the remove hold-down (`P.remHold`,
   ≥ 90 days by the regenerated fact below), and
-* is `Valid` again (not pending, no new hold-down) when its tag is in the set. -/
+* is `Valid` again (not pending, no new hold-down) when its tag is in the set, and
+* when a `Valid` anchor disappears, the 90-day clock STARTS at that refresh
+  (`Missing`, `FirstSeen = now`), however long the key had been Valid — so a
+  long-established key is not removed by the next refresh. -/
 theorem missing_keeps_trust_90d_and_returns (P : Params) (cfg : List Key) (d : Disk) (live : List Key)
     (f : Fetch) (fl : Faults) (now : Nat) (ta : TA)
     (hfull : (autoTA P cfg d live (some f) fl now).auth = .full)
@@ -528,7 +549,10 @@ theorem missing_keeps_trust_90d_and_returns (P : Params) (cfg : List Key) (d : D
     (hw : ¬(fl.tombWrite = true ∧ fl.stateWrite = true)) :
     ta.key ∈ (autoTA P cfg d live (some f) fl now).live ∧
     (ta.key.tag ∈ fetchedTags f →
-      ∃ ta' ∈ (autoTA P cfg d live (some f) fl now).curFinal, ta'.key = ta.key ∧ ta'.st = .valid) := by
+      ∃ ta' ∈ (autoTA P cfg d live (some f) fl now).curFinal, ta'.key = ta.key ∧ ta'.st = .valid) ∧
+    (ta.st = .valid → ta.key.tag ∉ fetchedTags f →
+      ∃ ta' ∈ (autoTA P cfg d live (some f) fl now).curFinal,
+        ta'.key = ta.key ∧ ta'.st = .missing ∧ ta'.firstSeen = now) := by
   rcases autoTA_inv P cfg d live (some f) fl now with ⟨_, _, ha, _⟩ | ⟨tomb0, f', a, hrt, hf, _, _, heq⟩
   · rw [ha] at hfull; cases hfull
   · cases hf
@@ -564,7 +588,8 @@ theorem missing_keeps_trust_90d_and_returns (P : Params) (cfg : List Key) (d : D
         rw [hnorev k hk' hr] at hs; cases hs
     -- the hold-down loop keeps it trusted
     have hstep : ∃ ta', holdStep P (fetchedTags f) now ta = some ta' ∧ ta'.key = ta.key ∧
-        isTrusted ta'.st = true ∧ (ta.key.tag ∈ fetchedTags f → ta'.st = .valid) := by
+        isTrusted ta'.st = true ∧ (ta.key.tag ∈ fetchedTags f → ta'.st = .valid) ∧
+        (ta.st = .valid → ta.key.tag ∉ fetchedTags f → ta'.st = .missing ∧ ta'.firstSeen = now) := by
       unfold holdStep
       by_cases hmem : (fetchedTags f).contains ta.key.tag = true
       · have hm : ta.key.tag ∈ fetchedTags f := by simpa using hmem
@@ -574,18 +599,20 @@ theorem missing_keeps_trust_90d_and_returns (P : Params) (cfg : List Key) (d : D
         have hmem' : (fetchedTags f).contains ta.key.tag = false := by simpa using hmem
         simp only [hmem', Bool.not_false, if_true]
         cases hst : ta.st <;> simp_all [isTrusted] <;> omega
-    obtain ⟨ta', hs1, hs2, hs3, hs4⟩ := hstep
+    obtain ⟨ta', hs1, hs2, hs3, hs4, hs5⟩ := hstep
     have hin' : ta' ∈ (process P f (Auth.full == Auth.revOnly) now cur tomb).cur := by
       rw [hproc]
       simp only
       unfold holdDown
       exact List.mem_filterMap.mpr ⟨ta, hin, hs1⟩
     generalize process P f (Auth.full == Auth.revOnly) now cur tomb = l at hin'
-    refine ⟨?_, ?_⟩
+    refine ⟨?_, ?_, ?_⟩
     · rw [finish_live_not_both fl _ _ _ l hw, ← hs2]
       exact mem_final_candidate fl l ta' hin' hs3
     · intro hm
       exact ⟨ta', hin', hs2, hs4 hm⟩
+    · intro hv hm
+      exact ⟨ta', hin', hs2, hs5 hv hm⟩
 
 /-! ## the add hold-down over histories -/
 
@@ -600,7 +627,9 @@ theorem step_holdInv (P : Params) (hP : thirtyDays ≤ P.addHold) (cfg : List Ke
   | damage dm =>
     cases dm with
     | tomb => exact ⟨hinv.disk, hinv.live, hinv.clock⟩
+    | tombEmpty => exact ⟨hinv.disk, hinv.live, hinv.clock⟩
     | state => exact ⟨(by intro tas h; cases h), hinv.live, hinv.clock⟩
+    | stateEmpty => exact ⟨(by intro tas h; cases h), hinv.live, hinv.clock⟩
   | run f fl crash =>
     have hlive0 : ∀ k ∈ startLive cfg s, k ∈ cfg ∨ g.earned k = true := by
       intro k hk
@@ -802,7 +831,20 @@ theorem tree_persistence_shape :
     SdnsVerif.Gen.C09.shape_unreadable_tombstones_use_empty_map = false ∧
     SdnsVerif.Gen.C09.shape_both_writes_failed_clears_trust = true ∧
     SdnsVerif.Gen.C09.shape_prefetch_publish_gated_on_prior = true ∧
+    SdnsVerif.Gen.C09.shape_missing_clock_starts_at_disappearance = true ∧
     SdnsVerif.Gen.C09.state_file ≠ SdnsVerif.Gen.C09.tombstone_file := by decide
+
+/-- **The real `readTombstones`, run over every file condition the model
+distinguishes** (regenerated on every run): only NotExist is an empty store; a
+zero-length file, a truncated stream, a single byte, garbage and a directory
+are all `errCorruptTombstones` (model: `FileC.empty` / `FileC.corrupt`, both
+`undecodable`); a file that cannot be opened is another error (model: the
+`tombRead` fault) — and `tree_persistence_shape` says both error classes clear
+the trust set. -/
+theorem tree_tombstone_read_outcomes :
+    SdnsVerif.Gen.C09.tomb_read_outcomes =
+      ["absent=store:0", "valid=store:1", "zero-length=corrupt", "truncated=corrupt",
+       "one-byte=corrupt", "garbage=corrupt", "directory=corrupt", "unopenable=error"] := by decide
 
 /-- the hold-down theorem instantiated with the tree's literals. -/
 theorem new_key_needs_holddown_tree (cfg : List Key) (evs : List Ev) (hnc : HistNC treeParams cfg {} evs) :
@@ -934,7 +976,14 @@ example : ∃ old ∈ (autoTA {} [kA, kB] {} [kA, kB] none {} 0).curFinal,
 
 -- corrupt_store_fail_closed
 example : (autoTA {} [kA] { tomb := .corrupt } [kA] (some revokeA) {} 0).live = [] :=
-  (corrupt_store_fail_closed {} [kA] { tomb := .corrupt } [kA] (some revokeA) {} 0 rfl rfl).1
+  (corrupt_store_fail_closed {} [kA] { tomb := .corrupt } [kA] (some revokeA) {} 0 rfl).1
+
+-- empty_store_fail_closed: revocation tombstoned, file later truncated to zero length, restart,
+-- the root no longer publishes the revoked form, configuration still lists kA: nothing is trusted
+example : (runHist {} [kA, kB] {} [.run (some revokeA) {} none, .damage .tombEmpty, .restart,
+    .run (some { keys := [kB], signers := [kB] }) {} none]).proc = some [] := by decide
+example : (autoTA {} [kA] { tomb := .empty } [kA] none {} 0).writes = [] :=
+  (empty_store_fail_closed {} [kA] { tomb := .empty } [kA] none {} 0 rfl).2
 
 -- unauthenticated_changes_nothing: an attacker's key signs a set that adds it
 example : autoTA {} [kA] {} [kA] (some { keys := [kA, kP], signers := [kP] }) {} 0 = autoTA {} [kA] {} [kA] none {} 0 :=
@@ -951,6 +1000,12 @@ example : ∀ k ∈ (autoTA {} [kA, kB] {} [kA, kB] (some { keys := [kA', kP], s
 example : kB ∈ (autoTA {} [kA, kB] {} [kA, kB] (some { keys := [kA], signers := [kA] }) {} 0).live :=
   (missing_keeps_trust_90d_and_returns {} [kA, kB] {} [kA, kB] { keys := [kA], signers := [kA] } {} 0
     ⟨kB, .valid, 0⟩ (by decide) (by decide) rfl (by decide) (by intro h; cases h) (by decide)).1
+
+-- ... a key that has been Valid for 200 days and is absent from two consecutive refreshes 12 h apart
+-- is still trusted after the second one (the clock started at the first absence)
+example : (runHist {} [kA, kB] {} [.run (some { keys := [kA, kB], signers := [kA] }) {} none, .tick (200 * 86400),
+    .run (some { keys := [kA], signers := [kA] }) {} none, .tick (12 * 3600),
+    .run (some { keys := [kA], signers := [kA] }) {} none]).proc = some [kA, kB] := by decide
 
 -- new_key_needs_holddown_partial: kP published, 31 days, published again -> trusted and earned
 example : (runHist {} [kA] {} [.run (some { keys := [kA, kP], signers := [kA] }) {} none, .tick (31 * 86400),
